@@ -106,11 +106,23 @@ def check_protocol(op, pts, label, first, stats):
     dom, ran = op.domain, op.range
     tol = max(_tol(ran), _tol(dom)) if not S.is_field(ran) else 1e-12
     ref_other = None
+    held = None
     for k, p in enumerate(pts):
         for lay, x in _elem_variants(dom, p):
             x0 = S.to_flat(x)
             try:
                 y = op(x)
+                # history: the result of the previous out-of-place call is still held by "the
+                # caller"; a later call must not overwrite it (a shared result buffer would)
+                if held is not None and not np.array_equal(S.to_flat(held[0]), held[1],
+                                                           equal_nan=True):
+                    first.setdefault((label, 'earlier_result_overwritten_by_later_call'),
+                                     'y = op(x_prev) held %s; after op(x) with x=%s it holds %s'
+                                     % (held[1].tolist(), np.asarray(p).tolist(),
+                                        S.to_flat(held[0]).tolist()))
+                held = None
+                if not S.is_field(ran) and hasattr(y, 'space'):
+                    held = (y, np.array(S.to_flat(y), copy=True))
             except NotImplementedError:
                 stats['notimpl'] += 1
                 return
